@@ -712,6 +712,104 @@ def scenario_joins(ctx):
                 pass
 
 
+def scenario_evolution_ids(ctx):
+    """addColumn / delColumn(changeSchema=True) keep every row under its OWN id: non-dense integer ids, explicit ids,
+    string ids, rows referenced by a foreign key from another table; full (id, columns) content compared."""
+    import sqlobject as so
+    conn = env()['conns']['sqlite']
+    rng = ctx.rng
+    for rep in range(ctx.budget(8, 80)):
+        str_id = rep % 3 == 2
+        name = sqlo.uniq('C14EvoId')
+        meta = {'idType': str} if str_id else {}
+        if rep % 4 == 1:
+            meta['idName'] = 'pk'
+        body = {'_connection': conn, 'a': so.IntCol(default=None), 'b': so.StringCol(), 'c': so.IntCol(default=None),
+                'd': so.UnicodeCol(default=None), 'sqlmeta': type('sqlmeta', (), meta)}
+        T = type(name, (so.SQLObject,), body)
+        R = type(sqlo.uniq('C14EvoRef'), (so.SQLObject,), {'_connection': conn, 'n': so.IntCol(),
+                                                            'tgt': so.ForeignKey(name, default=None)})
+        table, idn = T.sqlmeta.table, T.sqlmeta.idName
+        case = {'scenario': 'evolution-ids', 'str_id': str_id, 'rep': rep, 'idName': idn}
+        try:
+            T.createTable()
+            R.createTable()
+            ids = []
+            if str_id:
+                for k in ('k1', 'zz', "o'k", 'K 2'):
+                    ids.append(T(id=k, a=rng.randint(-9, 9), b='b' + k, c=rng.choice([None, 3]), d=rng.choice([None, 'u\xfc'])).id)
+            else:
+                for i in range(4):                       # 1..4, then a hole, then explicit far-away ids
+                    ids.append(T(a=rng.randint(-9, 9), b='b%d' % i, c=rng.choice([None, 3]), d=rng.choice([None, 'u\xfc'])).id)
+                for k in (10, 20 + rep):
+                    ids.append(T(id=k, a=k, b='x%d' % k, c=None, d='e').id)
+            gone = ids[1]
+            T.get(gone).destroySelf()
+            ids.remove(gone)
+            refs = {}
+            for i in ids[1:]:
+                refs[R(n=len(refs), tgt=i).id] = i
+
+            def content(cols):
+                return conn.queryAll('SELECT %s FROM %s ORDER BY %s' % (', '.join([idn] + cols), table, idn))
+
+            def check_refs(when):
+                conn.cache.clear()
+                for rid, tid in refs.items():
+                    try:
+                        got = R.get(rid).tgt
+                        ok = got is not None and got.id == tid and got.b == dict((r[0], r[1]) for r in content(['b']))[tid]
+                    except Exception as e:
+                        ok = False
+                    if not ok:
+                        ctx.oracle_fail('C14:evolution:fk-reference-lost',
+                                        '%s: the row referenced by a ForeignKey (id %r) is no longer reachable under its id' % (when, tid), case)
+                        return
+            # addColumn (python-level default, and a defaultSQL one)
+            before = content(['a', 'b', 'c', 'd'])
+            extra = so.IntCol('extra', default=5) if rep % 2 == 0 else so.IntCol('extra', defaultSQL='7', default=None)
+            T.sqlmeta.addColumn(extra, changeSchema=True)
+            if content(['a', 'b', 'c', 'd']) != before:
+                ctx.oracle_fail('C14:evolution:add-changes-data', 'addColumn changed ids or other columns: before %r after %r'
+                                % (before, content(['a', 'b', 'c', 'd'])), case)
+            want_extra = None if rep % 2 == 0 else 7
+            if [r[1] for r in content(['extra'])] != [want_extra] * len(before):
+                ctx.oracle_fail('C14:evolution:add-default', 'new column holds %r in the old rows, expected %r'
+                                % ([r[1] for r in content(['extra'])], want_extra), case)
+            check_refs('after addColumn')
+            # delColumn
+            victim = rng.choice(['a', 'c', 'd', 'extra'])
+            keep = [c for c in ['a', 'b', 'c', 'd', 'extra'] if c != victim]
+            before = content(keep)
+            T.sqlmeta.delColumn(victim, changeSchema=True)
+            after = content(keep)
+            tcols = [r[1] for r in conn.queryAll('PRAGMA table_info(%s)' % table)]
+            if tcols != [idn] + keep or [c.dbName for c in T.sqlmeta.columnList] != keep:
+                ctx.oracle_fail('C14:evolution:del-out-of-step', 'after delColumn(%s): table %r, class %r'
+                                % (victim, tcols, [c.dbName for c in T.sqlmeta.columnList]), case)
+            if after != before:
+                ctx.oracle_fail('C14:evolution:del-changes-data',
+                                'delColumn(%s, changeSchema=True) changed ids or other columns: before %r after %r'
+                                % (victim, before, after), case)
+            check_refs('after delColumn(%s)' % victim)
+            conn.cache.clear()
+            try:
+                seen = sorted((o.id, o.b) for o in T.select())
+            except Exception as e:
+                seen = 'raises %s' % type(e).__name__
+            if seen != sorted((r[0], r[2 if victim != 'a' else 1]) for r in before):
+                ctx.oracle_fail('C14:evolution:class-unusable', 'rows read through the class after the change: %r' % (seen,), case)
+            ctx.count('evolution-ids-scenario')
+        except Exception as e:
+            ctx.oracle_fail('C14:evolution:raises', 'schema evolution (ids) scenario raises %s: %s' % (type(e).__name__, e), case)
+        finally:
+            for c in (R, T):
+                try:
+                    c.dropTable(ifExists=True)
+                except Exception:
+                    pass
+
+
 def scenario_evolution(ctx):
     import sqlobject as so
     conn = env()['conns']['sqlite']
@@ -1015,6 +1113,7 @@ def run(ctx):
         run_spec(ctx, spec, micro=bool(i % 2), mx=bool(i % 3 == 0), sample=i < 3)
     scenario_joins(ctx)
     scenario_evolution(ctx)
+    scenario_evolution_ids(ctx)
     # link-table ownership: model predicate vs _getJoinsToCreate's comparison
     pairs = [('A', 'B'), ('B', 'A'), ('A', 'A'), ('Ab', 'A'), ('a', 'B'), ('Zed', 'Alpha'), ('X1', 'X10'), ('é', 'z')]
     for _ in range(ctx.budget(50, 2000)):
@@ -1082,7 +1181,9 @@ def replay(case):
     if 'scenario' in case:
         from vlib.framework import prng
         c.rng = prng(0)
-        if case['scenario'] in ('evolution', 'failed-add'):
+        if case['scenario'] == 'evolution-ids':
+            scenario_evolution_ids(c)
+        elif case['scenario'] in ('evolution', 'failed-add'):
             scenario_evolution(c)
         else:
             scenario_joins(c)
